@@ -100,7 +100,23 @@ fn check_one(i: u64) -> Result<(u32, Mv, bool), String> {
         return Err(format!("{:?} is not equal to an identically constructed move", want));
     }
     let n = N_MAIN + N_EP + N_CASTLE;
-    for j in [(i.wrapping_mul(2654435761).wrapping_add(12345)) % n, (i + 1) % n, (i + 30) % n, (i + 1920) % n, (i + 122880) % n, (i + 737280) % n] {
+    // partners: a pseudo-random one, the index neighbours (in the main family each differs in exactly
+    // one attribute: promotion, capture, destination, origin, kind, colour) and the twin in another
+    // family that differs in nothing but the marker (en passant v. pawn takes pawn on the same
+    // squares; castling v. the king's plain two-square move)
+    let mut partners = vec![(i.wrapping_mul(2654435761).wrapping_add(12345)) % n, (i + 1) % n, (i + 5) % n, (i + 30) % n, (i + 1920) % n, (i + 122880) % n, (i + 737280) % n];
+    let main_index = |col: Col, kind: Kind, from: usize, to: usize, cap: usize, promo: usize| -> u64 {
+        let k = KINDS.iter().position(|x| *x == kind).unwrap() as u64;
+        (((((if col == Col::W { 0 } else { 1 }) * 6 + k) * 64 + from as u64) * 64 + to as u64) * 6 + cap as u64) * 5 + promo as u64
+    };
+    if want.ep {
+        partners.push(main_index(want.col, Kind::P, want.from, want.to, 1, 0));
+    } else if want.castle.is_some() {
+        partners.push(main_index(want.col, Kind::K, want.from, want.to, 0, 0));
+    } else if want.kind == Kind::P && want.cap == Some(Kind::P) && want.promo.is_none() {
+        partners.push(N_MAIN + (if want.col == Col::W { 0 } else { 4096 }) + (want.from as u64) * 64 + want.to as u64);
+    }
+    for j in partners {
         let (w2, d2, m2) = construct(j);
         let same = {
             let (mut x, y) = (want, w2);
@@ -111,6 +127,18 @@ fn check_one(i: u64) -> Result<(u32, Mv, bool), String> {
         };
         if (mv == m2) != same && !(dbl_asserted.is_none() || d2.is_none()) {
             return Err(format!("{:?} == {:?} is {} but the attribute tuples are {}", want, w2, mv == m2, if same { "equal" } else { "different" }));
+        }
+        // equal moves hash equal (moves are keys of the book's and the generator's sets)
+        if mv == m2 {
+            use std::hash::{Hash, Hasher};
+            let h = |m: &Move| {
+                let mut s = std::collections::hash_map::DefaultHasher::new();
+                m.hash(&mut s);
+                s.finish()
+            };
+            if h(&mv) != h(&m2) {
+                return Err(format!("{:?} and {:?} compare equal but hash differently", want, w2));
+            }
         }
     }
     let raw = mv.as_raw();
@@ -229,7 +257,7 @@ pub fn plan(_: &Ctx) -> Plan {
         rule: "complete enumeration of the four constructors over 2 colours x 6 kinds x 64 origins x 64 destinations x \
                {no capture, P,N,B,R,Q} x {no promotion, N,B,R,Q}, all 8192 by_en_passant moves and the 4 by_castling \
                moves; every accessor must return what went in, the packed value must be injective over attribute \
-               tuples, == must agree with tuple equality (checked on all neighbours in packed order), serde_json and \
+               tuples, == must agree with tuple equality (checked on all neighbours in packed order, on the index neighbours that differ in exactly one attribute, and on the twins that differ only in the en-passant or castling marker; equal moves must hash equal), serde_json and \
                ciborium round trips must return an equal move. Non-trivial = distinct tuples with a capture, promotion, \
                en-passant, castling or double-step attribute.",
         assumptions: &[
